@@ -870,7 +870,9 @@ func genC11(rng *rand.Rand, tier string) (cases []string) {
 		cases = append(cases, genSetBigC11("C11.sss", int(v)+40, false, "middle"))
 	}
 	if tier == "thorough" {
-		for _, sz := range []int{1023, 1024, 1025, 2048, 3000, 4097} {
+		// (the per-step comparison of every register is quadratic in the size: 1600 elements take a
+		// few seconds, far below the 60 s per-case watchdog also on a busy machine)
+		for _, sz := range []int{1023, 1024, 1025, 1600} {
 			for _, from := range []string{"front", "back", "middle"} {
 				cases = append(cases, genSetBigC11("C11.sss", sz, from == "back", from))
 			}
